@@ -276,6 +276,9 @@ def handle (j : Json) : Except String Json := do
       | "chomsky" => CheckText.chomsky ref ans (gn "phase") (gs "start") (gn "len")
       | "dfa_accepts_rejects" => CheckText.dfaAcceptsRejects ans (gs "accepted") (gs "rejected")
       | "cfg_accepts_rejects" => CheckText.cfgAcceptsRejects ans (gs "accepted") (gs "rejected")
+      | "dfa_language_words" => CheckText.dfaLanguageWords ans (gs "words") (gn "len") (gn "max")
+      | "nfa_language_words" => CheckText.nfaLanguageWords ans (gs "words") sched (gn "len") (gn "max")
+      | "cfg_language_words" => CheckText.cfgLanguageWords ans (gs "words") (gn "len")
       | "dfa_language_file" => CheckText.dfaLanguageFile ans ref (gn "len")
       | "nfa_language_file" => CheckText.nfaLanguageFile ans ref sched (gn "len")
       | _ => CheckText.Verdict.error
